@@ -159,13 +159,14 @@ func (e *bsetEngine) TableSym(fn *ssa.Function, dom []int64, isSym func(v ssa.Va
 }
 
 type evalState struct {
-	depth int
-	e     *bsetEngine
-	fn    *ssa.Function
-	d     int64
-	isSym func(v ssa.Value) bool
-	from  []int // predecessor block index by which each block was entered (-1 = not visited)
-	why   string
+	symVal func(v ssa.Value) (int64, bool) // optional: additional symbols with fixed values
+	depth  int
+	e      *bsetEngine
+	fn     *ssa.Function
+	d      int64
+	isSym  func(v ssa.Value) bool
+	from   []int // predecessor block index by which each block was entered (-1 = not visited)
+	why    string
 }
 
 func (e *bsetEngine) run(t *bsetTable, fn *ssa.Function, dom []int64, isSym func(v ssa.Value) bool) {
@@ -289,8 +290,13 @@ func b2i(b bool) int64 {
 }
 
 func (st *evalState) eval(v ssa.Value) (int64, bool) {
-	if st.isSym(v) {
+	if st.isSym != nil && st.isSym(v) {
 		return st.d, true
+	}
+	if st.symVal != nil {
+		if x, ok := st.symVal(v); ok {
+			return x, true
+		}
 	}
 	st.depth++
 	defer func() { st.depth-- }()
